@@ -113,10 +113,34 @@ func runGrefcount(c *Ctx) {
 		a.expect("R7", name+"/store-release-func", 1, "r.valueRel = valRel in resolve")
 		a.expect("R7", name+"/release-func-fate", 1, "the resolver call in resolve")
 		// released(): restart exactly when the generation is unchanged
-		for li, l := range escapingLits(c, d) {
-			if l.Type.Params.NumFields() != 0 {
-				continue // resolveAfterRelease(lock bool) is walked in place from released()
-			}
+		// the released closure(s): what resolve hands to the resolver as its callback argument (a
+		// literal, or a local bound to literals) — helper closures it calls are walked in place
+		var relLits []*ast.FuncLit
+		{
+			ei := core.EscapesOf(c.Prog, d)
+			ast.Inspect(d.Decl.Body, func(n ast.Node) bool {
+				call, ok := n.(*ast.CallExpr)
+				if !ok {
+					return true
+				}
+				if fv := fieldVar(call.Fun, &core.Frame{Pkg: d.Pkg}); fv == nil || core.FieldName(fv) != "refcount.RefCount.resolver" {
+					return true
+				}
+				for _, arg := range call.Args {
+					switch x := unparen(arg).(type) {
+					case *ast.FuncLit:
+						relLits = append(relLits, x)
+					case *ast.Ident:
+						relLits = append(relLits, ei.Bound[d.Pkg.TypesInfo.Uses[x]]...)
+					}
+				}
+				return true
+			})
+		}
+		if len(relLits) == 0 {
+			c.MissingAnchor("R12", name+": the released callback handed to the resolver")
+		}
+		for li, l := range relLits {
 			lname := sprintf("%s.released#%d", name, li+1)
 			type rp struct {
 				lits []*r2Lit
@@ -211,12 +235,12 @@ func runGrefcount(c *Ctx) {
 						cbsIdx = i
 					}
 				}
-				if callsField(ev, "refcount.RefCount.resolveCtxCancel") {
+				if g.callsFieldAt(i, "refcount.RefCount.resolveCtxCancel") {
 					a.note("R7", "refcount/generation-bump-before-cancel", ev.Pos, !(nonceInc >= 0 && g.sec[nonceInc] == g.sec[i]),
 						"the nonce is incremented in the section that cancels the resolver",
 						"the resolve context is cancelled on a path that did not increment the nonce in the same section: the cancelled resolver still believes it is current and stores its late result", p)
 				}
-				if callsField(ev, valueRel) {
+				if g.callsFieldAt(i, valueRel) {
 					// followed by valueRel = nil in the same section
 					cleared := false
 					for j := i + 1; j < len(p.Events) && g.sec[j] == g.sec[i]; j++ {
@@ -269,11 +293,11 @@ func runGrefcount(c *Ctx) {
 			}
 			if nonceInc >= 0 {
 				cancelled, released := false, false
-				for _, ev := range p.Events[nonceInc:] {
-					if callsField(ev, "refcount.RefCount.resolveCtxCancel") {
+				for j := nonceInc; j < len(p.Events); j++ {
+					if g.callsFieldAt(j, "refcount.RefCount.resolveCtxCancel") {
 						cancelled = true
 					}
-					if callsField(ev, valueRel) {
+					if g.callsFieldAt(j, valueRel) {
 						released = true
 					}
 				}
@@ -353,6 +377,13 @@ func runGrefcount(c *Ctx) {
 					shrank = n
 				}
 			}
+		}
+	}
+	// … or "the reference was still registered" as the comma-ok result of a lookup in the set made
+	// before the delete
+	if shrank == "" && an.removeRef != nil {
+		if v := assignedFromIndex(an.removeRef, "refcount.RefCount.refs"); v != nil {
+			shrank = "F(" + c.Role(v) + ")"
 		}
 	}
 	if shrank != "" {
@@ -608,77 +639,115 @@ func releasedOnlyViaOnce(c *Ctx, a *agg) {
 		return
 	}
 	info := d.Pkg.TypesInfo
-	var stack []ast.Node
-	n := 0
+	// the callback may be kept in a field of a per-call state struct (released: released): calls
+	// through that field, in whichever method of the package, are calls of the callback too
+	relFields := map[*types.Var]bool{}
 	ast.Inspect(d.Decl.Body, func(nd ast.Node) bool {
-		if nd == nil {
-			stack = stack[:len(stack)-1]
-			return true
-		}
-		stack = append(stack, nd)
-		call, ok := nd.(*ast.CallExpr)
-		if !ok {
-			return true
-		}
-		id, ok := unparen(call.Fun).(*ast.Ident)
-		if !ok || info.Uses[id] != types.Object(relParam) {
-			return true
-		}
-		n++
-		inGo, inOnce := false, false
-		for i := len(stack) - 1; i >= 0; i-- {
-			switch x := stack[i].(type) {
-			case *ast.GoStmt:
-				inGo = true
-			case *ast.CallExpr:
-				if sel, ok := unparen(x.Fun).(*ast.SelectorExpr); ok && sel.Sel.Name == "Do" && inGo {
-					if t := info.TypeOf(sel.X); t != nil && strings.HasSuffix(t.String(), "sync.Once") {
-						inOnce = true
+		switch x := nd.(type) {
+		case *ast.KeyValueExpr:
+			if id, ok := unparen(x.Value).(*ast.Ident); ok && info.Uses[id] == types.Object(relParam) {
+				if kid, ok := x.Key.(*ast.Ident); ok {
+					if fv, ok := info.Uses[kid].(*types.Var); ok && fv.IsField() {
+						relFields[fv.Origin()] = true
+					}
+				}
+			}
+		case *ast.AssignStmt:
+			for i, r := range x.Rhs {
+				if id, ok := unparen(r).(*ast.Ident); ok && info.Uses[id] == types.Object(relParam) && i < len(x.Lhs) {
+					if fv := fieldVar(x.Lhs[i], &core.Frame{Pkg: d.Pkg}); fv != nil {
+						relFields[fv.Origin()] = true
 					}
 				}
 			}
 		}
-		if inGo && !inOnce {
-			// the function handed to Do may have been given a name first
-			ei := core.EscapesOf(c.Prog, d)
-			for i := len(stack) - 1; i >= 0 && !inOnce; i-- {
-				lit, ok := stack[i].(*ast.FuncLit)
-				if !ok {
-					continue
+		return true
+	})
+	n := 0
+	for _, dd := range pkgDecls(c, "refcount") {
+		dd := dd
+		if dd != d && len(relFields) == 0 {
+			continue
+		}
+		d := dd
+		info := d.Pkg.TypesInfo
+		var stack []ast.Node
+		ast.Inspect(d.Decl.Body, func(nd ast.Node) bool {
+			if nd == nil {
+				stack = stack[:len(stack)-1]
+				return true
+			}
+			stack = append(stack, nd)
+			call, ok := nd.(*ast.CallExpr)
+			if !ok {
+				return true
+			}
+			isRel := false
+			if id, ok := unparen(call.Fun).(*ast.Ident); ok && info.Uses[id] == types.Object(relParam) {
+				isRel = true
+			}
+			if fv := fieldVar(call.Fun, &core.Frame{Pkg: d.Pkg}); fv != nil && relFields[fv] {
+				isRel = true
+			}
+			if !isRel {
+				return true
+			}
+			n++
+			inGo, inOnce := false, false
+			for i := len(stack) - 1; i >= 0; i-- {
+				switch x := stack[i].(type) {
+				case *ast.GoStmt:
+					inGo = true
+				case *ast.CallExpr:
+					if sel, ok := unparen(x.Fun).(*ast.SelectorExpr); ok && sel.Sel.Name == "Do" && inGo {
+						if t := info.TypeOf(sel.X); t != nil && strings.HasSuffix(t.String(), "sync.Once") {
+							inOnce = true
+						}
+					}
 				}
-				for obj, lits := range ei.Bound {
-					if len(lits) != 1 || lits[0] != lit {
+			}
+			if inGo && !inOnce {
+				// the function handed to Do may have been given a name first
+				ei := core.EscapesOf(c.Prog, d)
+				for i := len(stack) - 1; i >= 0 && !inOnce; i-- {
+					lit, ok := stack[i].(*ast.FuncLit)
+					if !ok {
 						continue
 					}
-					uses, viaDo := 0, 0
-					ast.Inspect(d.Decl.Body, func(x ast.Node) bool {
-						switch y := x.(type) {
-						case *ast.Ident:
-							if info.Uses[y] == obj {
-								uses++
-							}
-						case *ast.CallExpr:
-							if sel, ok := unparen(y.Fun).(*ast.SelectorExpr); ok && sel.Sel.Name == "Do" && len(y.Args) == 1 {
-								if t := info.TypeOf(sel.X); t != nil && strings.HasSuffix(t.String(), "sync.Once") {
-									if id, ok := unparen(y.Args[0]).(*ast.Ident); ok && info.Uses[id] == obj {
-										viaDo++
+					for obj, lits := range ei.Bound {
+						if len(lits) != 1 || lits[0] != lit {
+							continue
+						}
+						uses, viaDo := 0, 0
+						ast.Inspect(d.Decl.Body, func(x ast.Node) bool {
+							switch y := x.(type) {
+							case *ast.Ident:
+								if info.Uses[y] == obj {
+									uses++
+								}
+							case *ast.CallExpr:
+								if sel, ok := unparen(y.Fun).(*ast.SelectorExpr); ok && sel.Sel.Name == "Do" && len(y.Args) == 1 {
+									if t := info.TypeOf(sel.X); t != nil && strings.HasSuffix(t.String(), "sync.Once") {
+										if id, ok := unparen(y.Args[0]).(*ast.Ident); ok && info.Uses[id] == obj {
+											viaDo++
+										}
 									}
 								}
 							}
+							return true
+						})
+						if uses > 0 && uses == viaDo {
+							inOnce = true
 						}
-						return true
-					})
-					if uses > 0 && uses == viaDo {
-						inOnce = true
 					}
 				}
 			}
-		}
-		a.note("R12", name+"/released-once-from-goroutine", call.Pos(), !(inGo && inOnce),
-			"the released callback is called only from a goroutine started under a sync.Once",
-			"the released callback is called outside the sync.Once / not from a new goroutine: it can fire twice, or run with the container's mutex held", nil)
-		return true
-	})
+			a.note("R12", name+"/released-once-from-goroutine", call.Pos(), !(inGo && inOnce),
+				"the released callback is called only from a goroutine started under a sync.Once",
+				"the released callback is called outside the sync.Once / not from a new goroutine: it can fire twice, or run with the container's mutex held", nil)
+			return true
+		})
+	}
 	a.expect("R12", name+"/released-once-from-goroutine", 1, "the call of released in WaitWithReleased")
 }
 
@@ -842,4 +911,25 @@ func refcountAnchors(c *Ctx) *refcountAnchorSet {
 		miss("the helper that calls the reference callbacks")
 	}
 	return an
+}
+
+// assignedFromIndex: the comma-ok variable of a lookup `_, ok := <field>[k]` in the function.
+func assignedFromIndex(d *core.FuncDecl, field string) *types.Var {
+	var out *types.Var
+	fr := &core.Frame{Pkg: d.Pkg}
+	ast.Inspect(d.Decl.Body, func(n ast.Node) bool {
+		as, ok := n.(*ast.AssignStmt)
+		if !ok || len(as.Lhs) != 2 || len(as.Rhs) != 1 || out != nil {
+			return true
+		}
+		ix, ok := unparen(as.Rhs[0]).(*ast.IndexExpr)
+		if !ok {
+			return true
+		}
+		if fv := fieldVar(ix.X, fr); fv != nil && core.FieldName(fv) == field {
+			out = identVar(as.Lhs[1], fr)
+		}
+		return true
+	})
+	return out
 }
